@@ -109,6 +109,7 @@ def sip_round(v0, v1, v2, v3):
     return hashes._siphash_round(v0, v1, v2, v3) == ref._sipround(v0, v1, v2, v3)
 
 
-@lemma("siphash.one_and_two_blocks_are_reference", types=dict(k0="bv64", k1="bv64", data="oneof[bytes[0]|bytes[3]|bytes[8]|bytes[11]]"), props="C17", bv=True, tier="thorough")
-def sip_short(k0, k1, data):
-    return hashes.siphash(k0, k1, data) == ref.siphash24(k0, k1, data)
+# A lemma "siphash of 0 / 3 / 8 / 11 bytes equals the reference for all keys" was tried here: the
+# generator does not support `|` between an integer read off bytes (unknown width) and a 64-bit
+# vector, so it was reported unsupported (undecided) and is withdrawn; SipHash as a whole stays the
+# bounded stand-in above, one SipRound is the proved part.
